@@ -6,7 +6,7 @@ name=$1; wt=$2; shift 2
 set -u
 cd $wt || exit 2
 demo=$(ls demo_*.py | head -1)
-git diff -- tdda > /tmp/seeded_$name.diff
+git diff -- '*.py' > /tmp/seeded_$name.diff
 [ -s /tmp/seeded_$name.diff ] || cp patch.diff /tmp/seeded_$name.diff
 echo "== with change:"; /venv/bin/python $demo > /tmp/seeded_$name.with 2>&1; echo "demo exit $?"; tail -3 /tmp/seeded_$name.with
 with_counts=$(/venv/bin/python -m pytest -q -p no:cacheprovider --timeout=900 --continue-on-collection-errors 2>&1 | tail -1)
